@@ -337,6 +337,15 @@ func rangesOver(f *ssa.Function, ap string) bool {
 	return found
 }
 
+// Kind returns the constant value (exact string) of the syntax.Type constant with that name.
+func (a *Anchors) Kind(name string) string {
+	k, ok := a.SyntaxPkg.Scope().Lookup(name).(*types.Const)
+	if !ok || !types.Identical(k.Type(), a.SegTypeT) {
+		an.Fatalf("UNRESOLVED anchor: segment kind constant %s", name)
+	}
+	return k.Val().ExactString()
+}
+
 // Describe writes the resolved anchors into a report.
 func (a *Anchors) Describe(r *an.Report) {
 	p := a.P
